@@ -34,7 +34,7 @@ Inductive dclass :=
 | DNlvLen      (* language values, skipped when w's are empty *)
 | DNlvSet      (* language values, skipped only when w's are nil *)
 | DItem        (* items through ItemsEqual, skipped when w's is nil *)
-| DLinks       (* items by their links only *)
+| DLinks       (* items by their links only (url before the fix; no block of the model has this class any more) *)
 | DList        (* item lists, skipped only when w's is nil *)
 | DTime | DDur | DUint
 | DStr         (* strings, byte for byte *)
@@ -69,7 +69,7 @@ Definition dyn_class (ty : gotype) (o : dynobs) : option (option dclass) :=
 Definition class_of (c : cmp) : dclass :=
   match c with
   | CNlv _ => DNlvLen | CNlvSet _ => DNlvSet | CItem _ => DItem | CItems _ => DList
-  | CCollItems => DList | COrdItems => DList | CUrl => DLinks
+  | CCollItems => DList | COrdItems => DList | CUrl => DItem   (* the probes do not tell its IsNil guard from != nil *)
   | CTime _ => DTime | CDur _ => DDur | CUint _ => DUint | CStr _ => DStr | CIri _ => DIri
   end.
 (* Items and OrderedItems share one offset: a block about the one is a block about the other (Model/Equal.v
